@@ -390,6 +390,13 @@ class SetupResponder:
             sub = [(T_ID, ident), (T_PUBKEY, ltpk), (T_SIG, sig)]
             if k == "inner6":
                 sub = mutate_items(sub, mut["inner"])
+            if k == "m6_rival":
+                # a second, different identity in the same (correctly encrypted) M6, not adjacent to the first so that
+                # no TLV decoder merges them; 'signed' = the rival carries a valid signature of its own
+                rid, rltsk = mut["id"].encode(), mut["ltsk"]
+                rpk = C.ed_pub(rltsk)
+                rival = [(T_ID, rid), (T_PUBKEY, rpk)] + ([(T_SIG, C.ed_sign(rltsk, ax + rid + rpk))] if mut.get("signed") else [])
+                sub = sub + rival if mut.get("where") == "after" else rival + sub
             key, nonce = kenc, C.nonce_label(b"PS-Msg06")
             if k == "m6_wrong_key":
                 key = mut["key"]
